@@ -30,10 +30,18 @@ Await ==
 
 Shape == Step("Shape") /\ Ev.orig_ok /\ Ev.faked_ok /\ Ev.restored_ok /\ s' = s
 AsyncMismatch == Step("AsyncMismatch") /\ Ev.refused /\ Ev.cls = "sig-mismatch" /\ Ev.orig_after /\ s' = s
+\* C09, async half: accepted iff the output types are the same; a refusal is a signature-mismatch panic raised
+\* before anything is modified
+AsyncPair ==
+  /\ Step("AsyncPair")
+  /\ Ev.verdict = (IF Ev.t1 = Ev.t2 THEN "accepted" ELSE "refused")
+  /\ (Ev.verdict = "refused" => (Ev.cls = "sig-mismatch" /\ ~Ev.touched_when_refused))
+  /\ s' = s
+
 ChildExit == Step("ChildExit") /\ Ev.signal = 0 /\ Ev.code = 0 /\ s' = s
 Other == l <= Last(sc) /\ Ev.ev \in {"Mmap", "Munmap", "Mprotect", "Write", "Flush", "Note"} /\ l' = l + 1 /\ sc' = sc /\ s' = s
 
-TraceNext == New \/ Fake \/ Drop \/ PanicDrop \/ Await \/ Shape \/ AsyncMismatch \/ ChildExit \/ Other
+TraceNext == AsyncPair \/ New \/ Fake \/ Drop \/ PanicDrop \/ Await \/ Shape \/ AsyncMismatch \/ ChildExit \/ Other
 TraceSpec == TraceInit /\ [][TraceNext]_tvars
 Track == TrackProgress(sc, l)
 Post == PrintProgress
